@@ -74,4 +74,15 @@ theorem clampGet_inside (xs : List Rat) (i : Nat) (h : i < xs.length) : Spec.cla
   have e : (min (max (i : Int) 0) ((xs.length : Int) - 1)).toNat = i := by omega
   rw [e]; simp [List.getD_eq_getElem?_getD, h]
 
+/-- SlidingWindowSegmenter on a univariate panel -/
+theorem slidingWindow_eq_spec (w : Nat) (hw : 0 < w) (X : Panel) (tbl : List (List Rat))
+    (ht : univariateTable X = .ok tbl) (hne : ∀ row ∈ tbl, row ≠ []) :
+    slidingWindow (.int (w : Int)) X = .ok (tbl.map (Spec.slidingWindows w)) := by
+  have h1 : ¬ ((w : Int) ≤ 0) := by omega
+  simp only [slidingWindow, ht, bind, Except.bind, h1, if_false, pure, Except.pure, Int.toNat_natCast]
+  congr 1
+  apply List.map_congr_left
+  intro row hrow
+  exact windows_eq_spec w row (hne row hrow)
+
 end SkVerif.C14.Lem
